@@ -550,3 +550,8 @@ impl Subset {
         Subset::Dense(OffsetRange::new(RowId::new(0), RowId::new(0)))
     }
 }
+
+#[cfg(kani)]
+pub(crate) mod verif_kani {
+    include!(concat!(env!("EGGLOG_VERIF_DIR"), "/kani/cr_offsets.rs"));
+}
